@@ -1,10 +1,23 @@
-//! migsim engine. See /verif/DESIGN.md section 2 and /verif/harness/AGENT_GUIDE.md.
+//! migsim engine: backup/restore (C13) and domain-level upgrade (C48) of random server content.
+//! See /verif/DESIGN.md section 2 and /verif/harness/AGENT_GUIDE.md.
+#[macro_use]
+extern crate kanidmd_lib;
+
+mod c13;
+mod c48;
+mod content;
 
 fn main() {
     let args = kvcore::parse_args();
+    // debugging aid for replays only: MIGSIM_TRACE=1 RUST_LOG=... shows kanidm's own log
+    if std::env::var("MIGSIM_TRACE").is_ok() {
+        sketching::test_init();
+    }
     match args.prop.as_str() {
+        "C13" => c13::run(args),
+        "C48" => c48::run(args),
         p => {
-            println!("INCONCLUSIVE property={p} reason=migsim does not serve this property yet");
+            println!("INCONCLUSIVE property={p} reason=migsim does not serve this property");
             std::process::exit(2);
         }
     }
